@@ -158,7 +158,7 @@ def dump_stats(ctx, dump):
     while i < len(toks):
         t = toks[i]
         if t == "pk_k":
-            unc += is_unc(toks[i + 1]); unc_all += is_unc(toks[i + 1]); i += 2
+            unc_all += is_unc(toks[i + 1]); i += 2     # pk_cost of pk_k is right since /repo 4c5160f8
         elif t in ("multi", "sortedmulti", "multi_a", "sortedmulti_a"):
             k, n = int(toks[i + 1]), int(toks[i + 2])
             ks = toks[i + 3:i + 3 + n]
